@@ -85,8 +85,9 @@ macro_rules! c03_gamma {
                 vassert!(x.is_finite(), "Gamma sample is infinite for finite parameters");
                 match d.repr {
                     One(_) => vassert!(rng.pos == 1, "Gamma(shape = 1) is one Exp1 draw"),
-                    Large(_) => vassert!(rng.pos == 2, "Gamma(shape > 1): an accepted first trial consumes 2 words"),
-                    Small(_) => vassert!(rng.pos == 3, "Gamma(shape < 1): an accepted first trial consumes 3 words"),
+                    // a trial is (normal draw, Open01 draw); a non-positive 1 + c x costs only the normal draw
+                    Large(_) => vassert!(rng.pos >= 2, "Gamma(shape > 1): a sample needs at least 2 words"),
+                    Small(_) => vassert!(rng.pos == 3, "Gamma(shape < 1): boost draw + one accepted trial = 3 words"),
                 }
                 kani::cover!(shape < 1.0, "small shape");
                 kani::cover!(shape == 1.0, "shape one");
